@@ -2,7 +2,7 @@
    Every theorem is for ALL byte strings / header values; the only hypotheses are the ones the
    operating system guarantees (a file is shorter than 2^63 bytes, bytes are below 256). *)
 From MV Require Import Base.Prelude Base.Facts Model.Footer Model.Header Model.Bincode Model.Toc
-  Model.Sketch Model.SearchPage Model.OpenSeq Proofs.HeaderProofs Proofs.BincodeProofs Proofs.FooterProofs.
+  Model.SearchPage Model.OpenSeq Proofs.HeaderProofs Proofs.BincodeProofs Proofs.FooterProofs.
 Require Import ZifyBool ZifyNat ZifyN.
 Local Open Scope N_scope.
 
@@ -186,13 +186,16 @@ Section WalProofs.
     rewrite (add_chk_ok acc x) by lia. cbn [obind]. rewrite IH by lia. f_equal. lia.
   Qed.
 
-  (* EmbeddedWal::open_internal: no Panic for any file, any header values *)
+  (* EmbeddedWal::open_internal: no Panic for any file, any header values.  (The region check
+     of 03a10a9 makes offset + size <= |file| before the scan; the scan itself was already total.) *)
   Theorem wal_open_chk_no_panic file offset size ckpt_pos ckpt_seq :
-    bytes_ok file = true -> N.of_nat (length file) < 2 ^ 63 -> offset < 2 ^ 64 ->
+    bytes_ok file = true -> N.of_nat (length file) < 2 ^ 63 ->
     forall s, wal_open_chk H file offset size ckpt_pos ckpt_seq <> Panic s.
   Proof.
-    intros Hok Hlen Hoff s. unfold wal_open_chk.
+    intros Hok Hlen s. unfold wal_open_chk.
     destruct (size =? 0) eqn:Es; [discriminate|].
+    destruct ((U64_LIM <=? offset + size) || (N.of_nat (length file) <? offset + size)) eqn:Eg; [discriminate|].
+    assert (Hoff : offset < 2 ^ 64) by (unfold U64_LIM in Eg; lia).
     pose proof (scan_chk_no_panic file offset size Hok Hlen Hoff (S (length file)) 0) as Hnp.
     destruct (scan_chk H (S (length file)) file offset size 0) as [[l c]|k|p] eqn:Er; cbn [obind fst];
       [|discriminate|exfalso; apply (Hnp p); [left; reflexivity | reflexivity]].
@@ -208,6 +211,7 @@ Section WalProofs.
     wal_open_chk H file offset size ckpt_pos ckpt_seq <> Err E_FUEL.
   Proof.
     unfold wal_open_chk. destruct (size =? 0) eqn:Es; [unfold E_WAL_ZERO, E_FUEL; discriminate|].
+    destruct ((U64_LIM <=? offset + size) || (N.of_nat (length file) <? offset + size)); [unfold E_WAL_REGION, E_FUEL; discriminate|].
     pose proof (scan_records_terminates file offset size) as Ht.
     destruct (scan_chk H (S (length file)) file offset size 0) as [[l c]|k|p] eqn:Er; cbn [obind fst].
     - destruct (sum_chk _ 0) as [a|k|p] eqn:E1; cbn [obind].
@@ -219,6 +223,17 @@ Section WalProofs.
       + discriminate.
     - intros Hk. inversion Hk. subst. apply Ht. reflexivity.
     - discriminate.
+  Qed.
+
+  (* the log region an accepted open reads from lies inside the file: nothing is ever read or
+     (in the writable flavour: sentinel) written beyond its end *)
+  Theorem wal_open_chk_region_inside file offset size ckpt_pos ckpt_seq r :
+    wal_open_chk H file offset size ckpt_pos ckpt_seq = Ok r ->
+    size <> 0 /\ offset + size <= N.of_nat (length file).
+  Proof.
+    unfold wal_open_chk. destruct (size =? 0) eqn:Es; [discriminate|].
+    destruct ((U64_LIM <=? offset + size) || (N.of_nat (length file) <? offset + size)) eqn:Eg; [discriminate|].
+    intros _. lia.
   Qed.
 End WalProofs.
 
@@ -434,75 +449,110 @@ Proof.
   destruct (Nat.ltb _ _); [discriminate | apply IH].
 Qed.
 
-(* the inputs on which read_sketch_track panics (debug profile): a header with the right magic
-   and a known entry size whose entry_count * entry_size (+ 24) does not fit a u64 *)
-Definition sketch_mul_class (file : bytes) (offset : N) : bool :=
-  (offset <=? N.of_nat (length file)) &&
-  (let r := skipn (N.to_nat offset) file in
-   Nat.leb SKETCH_HEADER_SIZE (length r) &&
-   (let hb := firstn SKETCH_HEADER_SIZE r in
-    bytes_eqb (slice hb 0 4) SKETCH_TRACK_MAGIC &&
-    match variant_of_size (u16_at hb 6) with
-    | None => false
-    | Some _ => 2 ^ 64 <=? N.of_nat SKETCH_HEADER_SIZE + u64_at hb 8 * u16_at hb 6
-    end)).
-
-Theorem read_sketch_track_panic_iff file offset len :
-  (exists s, read_sketch_track file offset len = Panic s) <-> sketch_mul_class file offset = true.
+(* total since bc37f0b: the length computation is checked *)
+Theorem read_sketch_track_no_panic file offset len s : read_sketch_track file offset len <> Panic s.
 Proof.
-  unfold read_sketch_track, sketch_mul_class.
-  destruct (N.of_nat (length file) <? offset) eqn:E1.
-  { assert (Ho : (offset <=? N.of_nat (length file)) = false) by lia. rewrite Ho. cbn [andb].
-    split; [intros [s Hs]; discriminate | discriminate]. }
-  assert (Ho : (offset <=? N.of_nat (length file)) = true) by lia. rewrite Ho. cbn [andb].
-  set (r := skipn (N.to_nat offset) file).
-  destruct (Nat.ltb (length r) SKETCH_HEADER_SIZE) eqn:E2.
-  { assert (Hl : Nat.leb SKETCH_HEADER_SIZE (length r) = false) by (apply Nat.ltb_lt in E2; apply Nat.leb_gt; exact E2).
-    rewrite Hl. cbn [andb]. split; [intros [s Hs]; discriminate | discriminate]. }
-  assert (Hl : Nat.leb SKETCH_HEADER_SIZE (length r) = true) by (apply Nat.ltb_ge in E2; apply Nat.leb_le; exact E2).
-  rewrite Hl. cbn [andb]. cbv zeta.
-  set (hb := firstn SKETCH_HEADER_SIZE r).
-  destruct (bytes_eqb (slice hb 0 4) SKETCH_TRACK_MAGIC); cbn [negb andb]; [|split; [intros [s Hs]; discriminate | discriminate]].
-  destruct (variant_of_size (u16_at hb 6)) as [v|]; [|split; [intros [s Hs]; discriminate | discriminate]].
-  set (prod := u64_at hb 8 * u16_at hb 6).
-  destruct (2 ^ 64 <=? prod) eqn:E3.
-  { split; [intros _; lia | intros _; eexists; reflexivity]. }
-  destruct (2 ^ 64 <=? N.of_nat SKETCH_HEADER_SIZE + prod) eqn:E4.
-  { split; [intros _; reflexivity | intros _; eexists; reflexivity]. }
-  split; [|discriminate].
-  intros [s Hs]. exfalso.
-  destruct (len <? N.of_nat SKETCH_HEADER_SIZE + prod); [discriminate|].
-  destruct (_ / _ <? _); [discriminate|].
-  pose proof (sketch_read_entries_no_panic v (N.to_nat (u64_at hb 8)) 0 (skipn SKETCH_HEADER_SIZE r) []) as Hn.
-  destruct (Sketch.read_entries v _ 0 _ []) as [es|k|p]; try discriminate. apply (Hn p). reflexivity.
+  unfold read_sketch_track.
+  destruct (N.of_nat (length file) <? offset); [discriminate|].
+  destruct (Nat.ltb _ Sketch.SKETCH_HEADER_SIZE); [discriminate|]. cbv zeta.
+  destruct (negb (bytes_eqb _ Sketch.SKETCH_TRACK_MAGIC)); [discriminate|].
+  destruct (Sketch.variant_of_size _) as [v|]; [|discriminate].
+  destruct (U64_LIM <=? _); [discriminate|]. destruct (U64_LIM <=? _); [discriminate|].
+  destruct (len <? _); [discriminate|]. destruct (_ / _ <? _); [discriminate|].
+  match goal with |- context [Sketch.read_entries v ?n ?i ?r ?a] => pose proof (sketch_read_entries_no_panic v n i r a) as Hn; destruct (Sketch.read_entries v n i r a) as [es|k|p] end;
+    try discriminate. exfalso. apply (Hn p). reflexivity.
 Qed.
 
-Theorem read_sketch_track_no_panic_outside file offset len :
-  sketch_mul_class file offset = false -> forall s, read_sketch_track file offset len <> Panic s.
+(* an overflowing count is now an error, for every declared length *)
+Theorem read_sketch_track_overflow_is_error file offset len :
+  offset <= N.of_nat (length file) ->
+  let r := skipn (N.to_nat offset) file in
+  (Sketch.SKETCH_HEADER_SIZE <= length r)%nat ->
+  let hb := firstn Sketch.SKETCH_HEADER_SIZE r in
+  bytes_eqb (slice hb 0 4) Sketch.SKETCH_TRACK_MAGIC = true ->
+  Sketch.variant_of_size (Sketch.u16_at hb 6) <> None ->
+  2 ^ 64 <= N.of_nat Sketch.SKETCH_HEADER_SIZE + Sketch.u64_at hb 8 * Sketch.u16_at hb 6 ->
+  read_sketch_track file offset len = Err E_SK_OVERFLOW.
 Proof.
-  intros Hc s Hp. assert (E : sketch_mul_class file offset = true) by (apply (read_sketch_track_panic_iff file offset len); exists s; exact Hp).
-  congruence.
+  intros Ho r Hr hb Hm Hv Hov. unfold read_sketch_track. fold r. fold hb.
+  destruct (N.of_nat (length file) <? offset) eqn:E1; [lia|].
+  destruct (Nat.ltb (length r) Sketch.SKETCH_HEADER_SIZE) eqn:E2; [apply Nat.ltb_lt in E2; lia|].
+  cbv zeta. fold hb. rewrite Hm. cbn [negb].
+  destruct (Sketch.variant_of_size (Sketch.u16_at hb 6)) as [v|]; [|contradiction].
+  unfold U64_LIM.
+  destruct (2 ^ 64 <=? Sketch.u64_at hb 8 * Sketch.u16_at hb 6) eqn:E3; [reflexivity|].
+  destruct (2 ^ 64 <=? Sketch.u64_at hb 8 * Sketch.u16_at hb 6 + N.of_nat Sketch.SKETCH_HEADER_SIZE) eqn:E4; [reflexivity | lia].
+Qed.
+
+(* ------------------------------------------------------------------ time index read_track *)
+Lemma ti_read_entries_no_panic fuel : forall bs count prev s, ti_read_entries fuel bs count prev <> Panic s.
+Proof.
+  induction fuel as [|f IH]; intros bs count prev s; cbn [ti_read_entries].
+  - destruct (count =? 0); discriminate.
+  - destruct (count =? 0); [discriminate|].
+    destruct (negb (Nat.eqb _ 16)); [discriminate|]. cbv zeta.
+    match goal with |- context [if ?c then Err E_TI_UNSORTED else _] => destruct c; [discriminate|] end.
+    match goal with |- context [ti_read_entries f ?b ?c ?p] => pose proof (IH b c p) as Hn; destruct (ti_read_entries f b c p) as [l|k|q] end;
+      try discriminate. exfalso. apply (Hn q). reflexivity.
+Qed.
+
+(* total since b6c8721, whatever the allocator answers *)
+Theorem ti_read_track_no_panic (alloc_ok : N -> bool) file offset len s : ti_read_track alloc_ok file offset len <> Panic s.
+Proof.
+  unfold ti_read_track.
+  repeat match goal with |- context [if ?c then Err _ else _] => destruct c; [discriminate|] end.
+  apply ti_read_entries_no_panic.
+Qed.
+
+(* the class that used to panic (count * 16 >= 2^63 with the matching length) is now the error
+   "entry count too large", and nothing is allocated for it *)
+Theorem ti_read_track_capacity_class_is_error (alloc_ok : N -> bool) file offset len :
+  let avail := skipn offset file in
+  (12 <= length avail)%nat -> firstn 4 avail = TI_MAGIC ->
+  let count := le_decode (slice avail 4 8) in
+  count * 16 < 2 ^ 64 -> len = 12 + count * 16 -> 2 ^ 63 <= count * 16 ->
+  ti_read_track alloc_ok file offset len = Err E_TI_TOO_LARGE.
+Proof.
+  intros avail Hl Hm count Hc Hlen Hbig. unfold ti_read_track. fold avail. cbv zeta. fold count.
+  destruct (Nat.ltb (length avail) 4) eqn:E1; [apply Nat.ltb_lt in E1; lia|].
+  rewrite Hm, bytes_eqb_refl. cbn [negb].
+  destruct (Nat.ltb (length avail) 12) eqn:E2; [apply Nat.ltb_lt in E2; lia|].
+  destruct (len <? 12) eqn:E3; [lia|]. unfold U64_LIM.
+  destruct (2 ^ 64 <=? count * 16) eqn:E4; [lia|].
+  destruct (len - 12 =? count * 16) eqn:E5; [|lia]. cbn [negb].
+  destruct (2 ^ 64 <=? count) eqn:E6; [lia|].
+  destruct (2 ^ 63 <=? count * 16) eqn:E7; [reflexivity | lia].
 Qed.
 
 (* ------------------------------------------------------------------ cursor / top_k arithmetic *)
 Theorem parse_cursor_no_panic c total s : parse_cursor c total <> Panic s.
 Proof. unfold parse_cursor. destruct c as [[n p| |]|]; try discriminate. destruct (total <? n); discriminate. Qed.
 
-Theorem doc_limit_panic_iff top_k hint flt :
-  (exists s, doc_limit top_k hint flt = Panic s) <-> USIZE_MAX < N.max top_k 1 + hint.
+Lemma sat_add_le a b : sat_add a b <= USIZE_LAST.
+Proof. unfold sat_add, USIZE_LAST. lia. Qed.
+Lemma sat_mul_le a b : sat_mul a b <= USIZE_LAST.
+Proof. unfold sat_mul, USIZE_LAST. lia. Qed.
+
+(* since 9b4da04 these are total functions; what remains to state is that every value fits a
+   usize and that the collector is never asked for 0 documents (Tantivy panics on a limit of 0)
+   nor for more than the index holds (it allocates 2 * limit entries up front) *)
+Theorem search_doc_limit_in_range top_k hint flt :
+  (forall f, flt = Some f -> f <= USIZE_LAST) -> 1 <= search_doc_limit top_k hint flt <= USIZE_LAST.
 Proof.
-  unfold doc_limit. destruct (USIZE_MAX <? N.max top_k 1 + hint) eqn:E.
-  - split; [intros _; lia | intros _; eexists; reflexivity].
-  - split; [intros [s Hs]; discriminate | lia].
+  intros Hf. unfold search_doc_limit. cbv zeta.
+  pose proof (sat_mul_le (sat_add (N.max top_k 1) hint) 4) as Hm. unfold USIZE_LAST, U64_LIM in *.
+  destruct flt as [f|]; [specialize (Hf f eq_refl)|]; lia.
 Qed.
 
-Theorem sketch_max_candidates_panic_iff top_k :
-  (exists s, sketch_max_candidates top_k = Panic s) <-> 2 ^ 64 <= top_k * 10.
-Proof.
-  unfold sketch_max_candidates, mul_chk, U64_LIM. destruct (2 ^ 64 <=? top_k * 10) eqn:E; cbn [obind].
-  - split; [intros _; lia | intros _; eexists; reflexivity].
-  - split; [intros [s Hs]; discriminate | lia].
-Qed.
+Theorem sketch_max_candidates_in_range top_k : 500 <= sketch_max_candidates top_k <= USIZE_LAST.
+Proof. unfold sketch_max_candidates. pose proof (sat_mul_le top_k 10). unfold USIZE_LAST, U64_LIM in *. lia. Qed.
+
+Theorem collector_limit_bounded limit index_docs :
+  1 <= collector_limit limit index_docs <= N.max index_docs 1 /\ collector_limit limit index_docs <= N.max limit 1.
+Proof. unfold collector_limit. lia. Qed.
+
+Theorem recency_age_in_range max_ts ts : (0 <= recency_age max_ts ts <= 2 ^ 63 - 1)%Z.
+Proof. unfold recency_age, sat_sub_i64. lia. Qed.
 
 (* ------------------------------------------------------------------ open_locked *)
 Section OpenCtlProofs.
